@@ -351,7 +351,8 @@ def install_dfs(reg):
         lemmas=[("def.AllReachableExpanded", lambda c: S.are_intro(c.sd, start(c), c.seen))],
         local_types={"seen": SI, "stack": ST, "successors": LI, "result_is_complete": TBool, "node": TInt, "node_id": TInt, "s": TInt},
         loops={0: LoopContract("while len(stack) > 0", inv0, havoc_heap={"sd": ALLF}, local_types={"successors": OL}),
-               1: LoopContract("while len(successors) > 0 and successors[-1] in seen", inv1, havoc_heap={}, lemmas=tr)},
+               1: LoopContract("while len(successors) > 0 and successors[-1] in seen", inv1, havoc_heap={}, lemmas=tr,
+                               variant=lambda c: [LI.len(c.successors)])},
     ))
 
 
@@ -536,7 +537,8 @@ def install_minimal(reg):
         local_types={"seen": SI, "stack": ST, "successors": LI, "minimal_traps": LS, "all_minimal_traps": LS, "node": TInt, "node_id": TInt,
                      "s": TInt, "skipped": TInt, "node_space": TSpace},
         loops={0: LoopContract("while len(stack) > 0", inv0, havoc_heap={"sd": ALLF}, local_types={"successors": OL}, lemmas=lem_all),
-               1: LoopContract("while len(successors) > 0", inv1, havoc_heap={"sd": ALLF}, lemmas=tr + lem_all)},
+               1: LoopContract("while len(successors) > 0", inv1, havoc_heap={"sd": ALLF}, lemmas=tr + lem_all,
+                               variant=lambda c: [LI.len(c.successors)])},
         raising_asserts=["len(minimal_traps) == 0"],
         note="AssertionError (the internal completeness check at the end) is a declared possible outcome, not proved impossible",
     ))
@@ -702,3 +704,101 @@ def install_wrappers(reg):
         loops={0: LoopContract("for node_id in self.expanded_ids()", build_inv, havoc_heap={"self": ["cand", "seeds", "sets", "ppn", "pbn", "pnfvs"]})},
         note="expand_block() (abstract outcome, invariant assumed of the driver) followed by node_attractor_seeds for exactly the expanded nodes; "
              "attractor data of stubs is not touched"), method_of="SD")
+
+
+# ====================================================================== reporting accessors (C01, C03, C12, C20)
+def install_reports(reg):
+    """minimal_trap_spaces() and expanded_attractor_seeds(): what the user reads off a diagram"""
+    from .attractors import structure_unchanged
+    OptLS = M.OptLS
+    LS = M.LS
+    DS = M.TDict(TInt, LS)
+    i_ = z3.Int("i!rp")
+
+    def leaf(v, n):
+        return z3.And(v.expanded[n], z3.Not(z3.Exists([y], z3.And(0 <= y, y < v.K, v.edge[n][y]))))
+
+    reg.add(Contract(
+        "biobalm.succession_diagram.SuccessionDiagram.minimal_trap_spaces", params=[("self", SD)], result_type=LI,
+        properties=("C03", "C02", "C20"),
+        requires=[lambda c: S.inv_all(c.self)],
+        ensures=[("exactly_the_expanded_leaves_ascending", lambda c: z3.And(
+            z3.ForAll([a], z3.Implies(z3.And(0 <= a, a < LI.len(c.result)), z3.And(S.valid(c.self, LI.at(c.result)[a]), leaf(c.self, LI.at(c.result)[a])))),
+            z3.ForAll([a, b], z3.Implies(z3.And(0 <= a, a < b, b < LI.len(c.result)), LI.at(c.result)[a] < LI.at(c.result)[b])),
+            z3.ForAll([x], z3.Implies(z3.And(S.valid(c.self, x), leaf(c.self, x)), T.MemI(c.result, x)))))],
+        note="list comprehension over expanded_ids() filtered by node_is_minimal"), method_of="SD")
+
+    def seeds_inv(c):
+        v, e, res = c.self, c.at_entry(0).self, c.res
+        return [("inv." + nm, g) for nm, g in S.inv(v)] + [
+            ("only_caches_change", z3.And(v.K == e.K, v.index == e.index, S.frame_edges(v, e), v.net == e.net, v.sym == e.sym, v.pn == e.pn,
+                                          S.frame_nodes(v, e, fields=("space", "expanded", "skipped", "parent", "succsig", "depth")))),
+            ("known_seeds_are_kept", z3.ForAll([i_], z3.Implies(z3.And(S.valid(e, i_), z3.Not(OptLS.is_none(e.seeds[i_]))), v.seeds[i_] == e.seeds[i_]))),
+            ("stubs_are_left_alone", z3.ForAll([i_], z3.Implies(z3.And(S.valid(e, i_), z3.Not(e.expanded[i_])), z3.And(
+                v.cand[i_] == e.cand[i_], v.seeds[i_] == e.seeds[i_], v.sets[i_] == e.sets[i_])))),
+            ("reported_so_far", z3.ForAll([i_], z3.And(
+                DS.dom(res)[i_] == z3.Exists([a], z3.And(0 <= a, a < c.i, LI.at(c.coll)[a] == i_, z3.Not(OptLS.is_none(v.seeds[i_])), LS.len(OptLS.val(v.seeds[i_])) > 0)),
+                z3.Implies(DS.dom(res)[i_], DS.vals(res)[i_] == OptLS.val(v.seeds[i_]))))),
+            ("visited_have_seeds", z3.ForAll([a], z3.Implies(z3.And(0 <= a, a < c.i), z3.Not(OptLS.is_none(v.seeds[LI.at(c.coll)[a]]))))),
+            ("configuration_kept", z3.And(*[getattr(v, "cfg_" + k2) == getattr(e, "cfg_" + k2) for k2 in M.CONFIG_KEYS])),
+        ]
+
+    def seeds_post(c):
+        v, r = c.self, c.result
+        return [("maps_every_expanded_node_with_attractors_to_its_seeds", z3.ForAll([i_], z3.And(
+                    DS.dom(r)[i_] == z3.And(S.valid(v, i_), v.expanded[i_], z3.Not(OptLS.is_none(v.seeds[i_])), LS.len(OptLS.val(v.seeds[i_])) > 0),
+                    z3.Implies(DS.dom(r)[i_], DS.vals(r)[i_] == OptLS.val(v.seeds[i_]))))),
+                ("seeds_known_for_every_expanded_node", z3.ForAll([i_], z3.Implies(z3.And(S.valid(v, i_), v.expanded[i_]), z3.Not(OptLS.is_none(v.seeds[i_]))))),
+                ("each_is_a_system_of_representatives", S.inv_all(v))]
+
+    reg.add(Contract(
+        "biobalm.succession_diagram.SuccessionDiagram.expanded_attractor_seeds", params=[("self", SD)], result_type=DS,
+        properties=("C01", "C14", "C20"),
+        requires=[lambda c: S.inv_all(c.self), lambda c: z3.And(c.self.cfg_attractor_candidates_limit >= 0, c.self.cfg_minimum_simulation_budget >= 0)],
+        modifies={"self": ["cand", "seeds", "sets", "ppn", "pbn", "pnfvs"]},
+        ensures=[(nm, (lambda k2: (lambda c: dict(seeds_post(c))[k2]))(nm)) for nm in
+                 ["maps_every_expanded_node_with_attractors_to_its_seeds", "seeds_known_for_every_expanded_node", "each_is_a_system_of_representatives"]],
+        raises={"RuntimeError": []}, may_raise={"RuntimeError": {"modifies": {"self": ["cand", "seeds", "sets", "ppn", "pbn", "pnfvs"]}}},
+        local_types={"res": DS, "atts": LS},
+        loops={0: LoopContract("for id in self.expanded_ids()", seeds_inv, havoc_heap={"self": ["cand", "seeds", "sets", "ppn", "pbn", "pnfvs"]})},
+        note="every expanded node is asked for its seeds (computed if missing); nodes without attractors are left out of the dictionary; by I-cache "
+             "each reported list is a system of distinct representatives of the attractors owned by its node"), method_of="SD")
+
+    # ---- expanded_attractor_sets: same shape over the cached attractor sets
+    OptLV, LV = M.OptLV, M.LV
+    DV = M.TDict(TInt, LV)
+
+    def sets_inv(c):
+        v, e, res = c.self, c.at_entry(0).self, c.res
+        return [("inv." + nm, g) for nm, g in S.inv(v)] + [
+            ("only_caches_change", z3.And(v.K == e.K, v.index == e.index, S.frame_edges(v, e), v.net == e.net, v.sym == e.sym, v.pn == e.pn,
+                                          S.frame_nodes(v, e, fields=("space", "expanded", "skipped", "parent", "succsig", "depth")))),
+            ("known_sets_are_kept", z3.ForAll([i_], z3.Implies(z3.And(S.valid(e, i_), z3.Not(OptLV.is_none(e.sets[i_]))), v.sets[i_] == e.sets[i_]))),
+            ("stubs_are_left_alone", z3.ForAll([i_], z3.Implies(z3.And(S.valid(e, i_), z3.Not(e.expanded[i_])), z3.And(
+                v.cand[i_] == e.cand[i_], v.seeds[i_] == e.seeds[i_], v.sets[i_] == e.sets[i_])))),
+            ("reported_so_far", z3.ForAll([i_], z3.And(
+                DV.dom(res)[i_] == z3.Exists([a], z3.And(0 <= a, a < c.i, LI.at(c.coll)[a] == i_, z3.Not(OptLV.is_none(v.sets[i_])), LV.len(OptLV.val(v.sets[i_])) > 0)),
+                z3.Implies(DV.dom(res)[i_], DV.vals(res)[i_] == OptLV.val(v.sets[i_]))))),
+            ("visited_have_sets", z3.ForAll([a], z3.Implies(z3.And(0 <= a, a < c.i), z3.Not(OptLV.is_none(v.sets[LI.at(c.coll)[a]]))))),
+            ("configuration_kept", z3.And(*[getattr(v, "cfg_" + k2) == getattr(e, "cfg_" + k2) for k2 in M.CONFIG_KEYS])),
+        ]
+
+    def sets_post(c):
+        v, r = c.self, c.result
+        return [("maps_every_expanded_node_with_attractors_to_its_attractor_sets", z3.ForAll([i_], z3.And(
+                    DV.dom(r)[i_] == z3.And(S.valid(v, i_), v.expanded[i_], z3.Not(OptLV.is_none(v.sets[i_])), LV.len(OptLV.val(v.sets[i_])) > 0),
+                    z3.Implies(DV.dom(r)[i_], DV.vals(r)[i_] == OptLV.val(v.sets[i_]))))),
+                ("sets_known_for_every_expanded_node", z3.ForAll([i_], z3.Implies(z3.And(S.valid(v, i_), v.expanded[i_]), z3.Not(OptLV.is_none(v.sets[i_]))))),
+                ("invariant_kept", S.inv_all(v))]
+
+    reg.add(Contract(
+        "biobalm.succession_diagram.SuccessionDiagram.expanded_attractor_sets", params=[("self", SD)], result_type=DV,
+        properties=("C12", "C14", "C20"),
+        requires=[lambda c: S.inv_all(c.self), lambda c: z3.And(c.self.cfg_attractor_candidates_limit >= 0, c.self.cfg_minimum_simulation_budget >= 0)],
+        modifies={"self": ["cand", "seeds", "sets", "ppn", "pbn", "pnfvs"]},
+        ensures=[(nm, (lambda k2: (lambda c: dict(sets_post(c))[k2]))(nm)) for nm in
+                 ["maps_every_expanded_node_with_attractors_to_its_attractor_sets", "sets_known_for_every_expanded_node", "invariant_kept"]],
+        raises={"RuntimeError": []}, may_raise={"RuntimeError": {"modifies": {"self": ["cand", "seeds", "sets", "ppn", "pbn", "pnfvs"]}}},
+        local_types={"res": DV, "atts": LV},
+        loops={0: LoopContract("for id in self.expanded_ids()", sets_inv, havoc_heap={"self": ["cand", "seeds", "sets", "ppn", "pbn", "pnfvs"]})},
+        note="every expanded node is asked for its attractor sets (computed if missing); by I-cache they are the sets of the node's seeds in order"), method_of="SD")
